@@ -748,3 +748,146 @@ Proof.
     + intros w'. apply (S1 G D (conj HG1 (conj HG2 HD))). eapply incl_tran; [apply E2 | exact Hi].
     + eapply inl_mono; [exact Hi | exact Hinl].
 Qed.
+
+(* ---- the compiled grammar ------------------------------------------------------------------------ *)
+Lemma in_rules_of a t r : In r (rules_of a t) <-> lhs r = a /\ In (rhs r) (alts t).
+Proof.
+  unfold rules_of. rewrite in_map_iff. split.
+  - intros (x & <- & Hx). simpl. auto.
+  - intros [<- H]. exists (rhs r). split; auto. destruct r; auto.
+Qed.
+
+Lemma grammar_of_ok t0 D :
+  (forall h t t', In (h, t) D -> In (h, t') D -> t = t') -> Gok (grammar_of t0 D) D.
+Proof.
+  intros HD. unfold Gok, grammar_of. split; [|split]; auto.
+  - intros r h Hr Hl. apply in_app_or in Hr. destruct Hr as [Hr|Hr].
+    + apply in_rules_of in Hr. destruct Hr as [H0 _]. congruence.
+    + apply in_flat_map in Hr. destruct Hr as ([h' t] & Hd & Hr). apply in_rules_of in Hr. simpl in Hr.
+      destruct Hr as [H1 H2]. assert (h' = h) by congruence. subst. eauto.
+  - intros h t a Hd Ha. apply in_or_app. right. apply in_flat_map. exists (h, t). split; auto.
+    apply in_rules_of. simpl. auto.
+Qed.
+
+Lemma start_unfold t0 D w :
+  derives (grammar_of t0 D) nat Nat.eqb [NT 0] w <-> lang (grammar_of t0 D) t0 w.
+Proof.
+  split.
+  - intros H. inversion H as [| |a r ss w1 w2 Hr Hl Hd1 Hd2]; subst.
+    apply der_nil_inv in Hd2. subst. rewrite app_nil_r. exists (rhs r). split; auto.
+    unfold grammar_of in Hr. apply in_app_or in Hr. destruct Hr as [Hr|Hr].
+    + apply in_rules_of in Hr. tauto.
+    + apply in_flat_map in Hr. destruct Hr as (d & _ & Hr). apply in_rules_of in Hr. destruct Hr; congruence.
+  - intros (a & Ha & Hd). rewrite <- (app_nil_r w).
+    apply (d_nt _ nat Nat.eqb 0 (mkRule 0 a) [] w []); auto; [|constructor].
+    unfold grammar_of. apply in_or_app. left. apply in_rules_of. simpl. auto.
+Qed.
+
+(* the compiled rule (all its alternatives, with all helper rules) derives exactly the words the
+   expression denotes, with the stated repetition counts *)
+Theorem compile_preserves_language e G :
+  compile e = Ok G -> forall w, derives G nat Nat.eqb [NT 0] w <-> eden e w.
+Proof.
+  unfold compile. intros H. apply rbind_ok in H. destruct H as ([t st] & He & H). simpl in H.
+  inversion H; subst. clear H. intros w.
+  destruct (ebnf_good e st0 t st wf_st0 He) as (W & _ & _ & S).
+  rewrite start_unfold. apply (S _ (new_rules st)); [|apply incl_refl].
+  apply grammar_of_ok. apply (wf_defs st W).
+Qed.
+
+(* ---- the compiler succeeds on every expression whose ranges are well formed ---------------------- *)
+Fixpoint ranges_ok (e : expr) : Prop :=
+  match e with
+  | Sym _ => True
+  | Seq es => (fix go (l : list expr) : Prop := match l with [] => True | x :: r => ranges_ok x /\ go r end) es
+  | Alt es => (fix go (l : list expr) : Prop := match l with [] => True | x :: r => ranges_ok x /\ go r end) es
+  | Opt e | Star e | Plus e => ranges_ok e
+  | Rep e mn mx => (0 <= mn <= mx)%Z /\ ranges_ok e
+  end.
+
+Lemma gen_repeats_total rule mn mx st : (0 <= mn <= mx)%Z -> exists r, gen_repeats rule mn mx st = Ok r.
+Proof.
+  intros Hb. unfold gen_repeats. destruct (mx <? REPEAT_BREAK_THRESHOLD)%Z; [eauto|].
+  destruct (small_factors_spec mn SMALL_FACTOR_THRESHOLD ltac:(lia) SFT_ok) as (fs & Hfs & _).
+  unfold sf_fuel. rewrite Hfs. cbn [rbind]. destruct (mx =? mn)%Z eqn:E; [eauto|]. apply Z.eqb_neq in E.
+  destruct (small_factors_spec (mx - mn + 1) SMALL_FACTOR_THRESHOLD ltac:(lia) SFT_ok) as (dfs & Hdfs & _).
+  rewrite Hdfs. cbn [rbind].
+  destruct (fold_left _ _ _) as [[dt dopt] st2]. destruct (add_repeat_opt_rule' _ _ _ _ _ _). eauto.
+Qed.
+
+Theorem compile_total e : ranges_ok e -> exists G, compile e = Ok G.
+Proof.
+  intros Hr. assert (H : forall st, exists r, ebnf e st = Ok r).
+  { induction e as [s|l IH|l IH|e IH|e IH|e IH|e mn mx IH] using expr_ind'; intros st.
+    - simpl. eauto.
+    - rewrite ebnf_Seq. assert (Hl : exists q, ebnf_list l st = Ok q).
+      { revert st. induction IH as [|x r Hx _ IHr]; intros st; simpl; [eauto|].
+        destruct Hr as [Hr1 Hr2]. destruct (Hx Hr1 st) as (p & ->). simpl.
+        destruct (IHr Hr2 (snd p)) as (q & ->). simpl. eauto. }
+      destruct Hl as (q & ->). simpl. eauto.
+    - rewrite ebnf_Alt. assert (Hl : exists q, ebnf_list l st = Ok q).
+      { revert st. induction IH as [|x r Hx _ IHr]; intros st; simpl; [eauto|].
+        destruct Hr as [Hr1 Hr2]. destruct (Hx Hr1 st) as (p & ->). simpl.
+        destruct (IHr Hr2 (snd p)) as (q & ->). simpl. eauto. }
+      destruct Hl as (q & ->). simpl. eauto.
+    - simpl. destruct (IH Hr st) as (p & ->). simpl. eauto.
+    - simpl. destruct (IH Hr st) as (p & ->). simpl. eauto.
+    - simpl. destruct (IH Hr st) as (p & ->). simpl. eauto.
+    - simpl. destruct Hr as [Hb Hr]. destruct (IH Hr st) as (p & ->). simpl.
+      replace ((mx <? mn) || (mn <? 0))%Z with false.
+      + apply gen_repeats_total; auto.
+      + symmetry. apply orb_false_intro; apply Z.ltb_ge; lia. }
+  unfold compile. destruct (H st0) as (p & ->). simpl. eauto.
+Qed.
+
+(* ---- "Filter out unused rules" keeps the language of the start rule ------------------------------- *)
+Section Prune.
+  Variable G : grammar.
+  Let keep (a : nat) := used_in G a.
+  Let G' := filter (fun r => used_in G (lhs r)) G.
+
+  Lemma prune_step_derives ss w :
+    derives G nat Nat.eqb ss w -> (forall a, In (NT a) ss -> keep a = true) -> derives G' nat Nat.eqb ss w.
+  Proof.
+    induction 1 as [|t k ss w Hm Hd IH|a r ss w1 w2 Hr Hl Hd1 IH1 Hd2 IH2]; intros Hk.
+    - constructor.
+    - constructor; auto. apply IH. intros a Ha. apply Hk. right; auto.
+    - assert (Ka : keep a = true) by (apply Hk; left; auto).
+      apply (d_nt G' nat Nat.eqb a r); auto.
+      + unfold G'. apply filter_In. split; auto. rewrite Hl. exact Ka.
+      + apply IH1. intros b Hb. destruct (Nat.eq_dec b a) as [->|Hne]; auto.
+        unfold keep, used_in. apply orb_true_intro. right. apply existsb_exists. exists r. split; auto.
+        apply andb_true_intro. split.
+        * rewrite Hl. apply negb_true_iff. apply Nat.eqb_neq. auto.
+        * apply existsb_exists. exists (NT b). split; auto. simpl. apply Nat.eqb_refl.
+      + apply IH2. intros b Hb. apply Hk. right; auto.
+  Qed.
+
+  Lemma filter_derives (f : rule -> bool) ss w :
+    derives (filter f G) nat Nat.eqb ss w -> derives G nat Nat.eqb ss w.
+  Proof.
+    induction 1; try (constructor; auto; fail).
+    apply (d_nt G nat Nat.eqb a r); auto. apply filter_In in H. tauto.
+  Qed.
+
+  Lemma prune_step w : derives G nat Nat.eqb [NT 0] w <-> derives G' nat Nat.eqb [NT 0] w.
+  Proof.
+    split.
+    - intros H. apply prune_step_derives; auto. intros a [Ha|[]]. inversion Ha; subst. reflexivity.
+    - apply filter_derives.
+  Qed.
+End Prune.
+
+Lemma prune_language fuel : forall G w,
+  derives (prune fuel G) nat Nat.eqb [NT 0] w <-> derives G nat Nat.eqb [NT 0] w.
+Proof.
+  induction fuel as [|f IH]; intros G w; simpl; [tauto|].
+  destruct (Nat.eqb _ _); [tauto|]. rewrite IH. symmetry. apply prune_step.
+Qed.
+
+Theorem compile_pruned_preserves_language e G :
+  compile_pruned e = Ok G -> forall w, derives G nat Nat.eqb [NT 0] w <-> eden e w.
+Proof.
+  unfold compile_pruned. intros H. apply rbind_ok in H. destruct H as (G0 & H0 & H). inversion H; subst.
+  intros w. rewrite prune_language. apply compile_preserves_language; auto.
+Qed.
